@@ -84,6 +84,10 @@ func c08Univ() *c08Universe {
 		u.leafs = append(u.leafs, add("leaf-bad-signature", lbad))
 		lroot := kit.MakeCert(kit.CertSpec{Name: "leaf4.pool.test", Key: "p256_5", Issuer: root, Serial: 11, DNSNames: []string{"leaf4.pool.test"}})
 		u.leafs = append(u.leafs, add("leaf-under-root", lroot))
+		// end-entity certificates that carry a CA's name (and key id) with another key: as pool members they are
+		// candidates in a parent lookup by name / key id, and must never come back as verified parents
+		add("inter1-impostor-not-a-ca", kit.MakeCert(kit.CertSpec{Name: "Pool Inter 1", Key: "p256_4", Issuer: root, Serial: 12, SKI: ski}))
+		add("root-impostor-not-a-ca", kit.MakeCert(kit.CertSpec{Name: "Pool Root", Key: "p256_3", Serial: 13, SKI: []byte{9, 9, 9, 1}}))
 		c08U = u
 	})
 	return c08U
